@@ -173,3 +173,12 @@ Theorem legend_paths_confined :
     safe (digest ++ 46 :: s2z ext) /\
     resolve cwd (legend_location cache_dir digest ext) = resolve cwd cache_dir ++ [digest ++ 46 :: s2z ext].
 Proof. exact legend_location_resolves. Qed.
+
+(* FileCache._store_single_color_tile: the link text os.path.relpath(single colour file, directory of the tile), read
+   from the directory of the tile, is exactly the single colour file - for a tile below any number of (dimension)
+   directories.  (A prefix memoised for another depth does not have this property: memoised_link_prefix_escapes.) *)
+Theorem single_colour_link_resolves_to_its_target :
+  forall (target tile_dir : list str),
+    Forall safe target ->
+    fold_left step (relpath_comps target tile_dir) (rev tile_dir) = rev target.
+Proof. exact relpath_resolves. Qed.
